@@ -416,7 +416,8 @@ type vCallState struct {
 	cancel context.CancelFunc
 	done   chan struct{}
 	res    *interface{}
-	snap   string // result buffer at return
+	snap   string        // result buffer at return
+	print  func() string // how to print the result buffer now (typed results); nil = vPrint(*res)
 }
 
 type vHandlerState struct {
@@ -546,7 +547,15 @@ func (e *vEngine) handle(ctx context.Context, method string, arg interface{}) (i
 		res = vParse(r[0])
 	}
 	var err error
-	if r[1] != "-" {
+	switch r[1] {
+	case "-":
+	case "!canceled": // application errors that happen to BE well-known sentinels: the handler's own business, still an answer
+		err = context.Canceled
+	case "!deadline":
+		err = context.DeadlineExceeded
+	case "!eof":
+		err = io.EOF
+	default:
 		err = vValueError{vParse(r[1])}
 	}
 	return res, err
@@ -681,6 +690,37 @@ func (e *vEngine) op(f []string) {
 			err := e.cli.Call(ctx, meth, arg, &typed, 0)
 			*cs.res = []interface{}{int64(typed.A), int64(typed.B)}
 			cs.snap = vPrint(*cs.res)
+			e.ev.add("ret/%s/%s/%s", f[1], vErrClass(err), cs.snap)
+			close(cs.done)
+		}()
+		e.waitFor("call-written-or-returned", func() bool {
+			select {
+			case <-cs.done:
+				return true
+			default:
+			}
+			return e.conn.numWrites() > before
+		})
+	case "callslice": // callslice/<cid>/<meth hex>/<arg>: the result is decoded into a []string the caller goes on holding
+		cs := &vCallState{id: f[1], done: make(chan struct{}), res: new(interface{})}
+		ctx, cancel := e.ctxFor("-")
+		cs.cancel = cancel
+		e.calls[f[1]] = cs
+		meth := string(vUnhex(f[2]))
+		arg := vParse(f[3])
+		before := e.conn.numWrites()
+		var list []string
+		cs.print = func() string {
+			var l []interface{}
+			for _, x := range list {
+				l = append(l, x)
+			}
+			return vPrint(l)
+		}
+		e.ev.add("callstart/%s", f[1])
+		go func() {
+			err := e.cli.Call(ctx, meth, arg, &list, 0)
+			cs.snap = cs.print()
 			e.ev.add("ret/%s/%s/%s", f[1], vErrClass(err), cs.snap)
 			close(cs.done)
 		}()
@@ -1077,7 +1117,13 @@ func (e *vEngine) bufs() string {
 		select {
 		case <-cs.done:
 			same := "1"
-			if vPrint(*cs.res) != cs.snap {
+			now := ""
+			if cs.print != nil {
+				now = cs.print()
+			} else {
+				now = vPrint(*cs.res)
+			}
+			if now != cs.snap {
 				same = "0"
 			}
 			parts = append(parts, id+"="+same)
